@@ -1371,7 +1371,15 @@ impl<Front: SocketHandler + std::fmt::Debug, L: ListenerHandler + L7ListenerHand
                     // flag so the inner loop continues instead of breaking.
                     let context = &mut self.context;
                     for (_token, backend) in self.router.backends.iter_mut() {
-                        if backend.try_resume_reading(context) {
+                        // (the frontend write may also have armed a backend
+                        // itself: an interim response just flushed re-arms
+                        // READABLE on its backend with a synthetic event, for
+                        // the response already buffered behind it)
+                        let armed = backend.readiness().filter_interest();
+                        if backend.try_resume_reading(context)
+                            || armed.is_readable()
+                            || armed.is_writable()
+                        {
                             all_backends_readiness_are_empty = false;
                         }
                     }
